@@ -43,7 +43,10 @@ func init() {
 					return false
 				}
 				switch v.Kind {
-				case "state", "one-form", "frame-changed", "frame-removed", "selected-not-set", "lost-selection", "gen-state-differs-from-simple":
+				case "state", "one-form", "frame-changed", "frame-removed", "selected-not-set", "lost-selection", "gen-state-differs-from-simple",
+					"collections-state-differs-from-simple", "typed-slices-state-differs-from-simple", "one-form-changed-on-one-representation-only":
+					// (the last three: the branches for Indexed collections and for typed slices reached by
+					// reflection each have their own variant again, e.g. an exclusive end in reflectGetSlice)
 					return true
 				}
 				return false
@@ -216,8 +219,171 @@ func normTree(v any) any {
 		return out
 	case int:
 		return int64(t)
+	case *orderedMap:
+		out := map[string]any{}
+		for i, k := range t.keys {
+			out[k] = normTree(t.vals[i])
+		}
+		return out
+	case *indexedList:
+		out := make([]any, len(t.vals))
+		for i, e := range t.vals {
+			out[i] = normTree(e)
+		}
+		return out
+	case []int64:
+		out := make([]any, len(t))
+		for i, e := range t {
+			out[i] = e
+		}
+		return out
+	case []string:
+		out := make([]any, len(t))
+		for i, e := range t {
+			out[i] = e
+		}
+		return out
+	case []map[string]any:
+		out := make([]any, len(t))
+		for i, e := range t {
+			out[i] = normTree(e)
+		}
+		return out
+	case [][]any:
+		out := make([]any, len(t))
+		for i, e := range t {
+			out[i] = normTree(e)
+		}
+		return out
 	}
 	return v
+}
+
+// ---- harness-defined collections (jp.Keyed, jp.RemovableIndexed) and typed Go slices ----
+
+type orderedMap struct {
+	keys []string
+	vals []any
+}
+
+func (o *orderedMap) ValueForKey(key string) (any, bool) {
+	for i, k := range o.keys {
+		if k == key {
+			return o.vals[i], true
+		}
+	}
+	return nil, false
+}
+func (o *orderedMap) SetValueForKey(key string, value any) {
+	for i, k := range o.keys {
+		if k == key {
+			o.vals[i] = value
+			return
+		}
+	}
+	o.keys = append(o.keys, key)
+	o.vals = append(o.vals, value)
+}
+func (o *orderedMap) RemoveValueForKey(key string) {
+	for i, k := range o.keys {
+		if k == key {
+			o.keys = append(o.keys[:i], o.keys[i+1:]...)
+			o.vals = append(o.vals[:i], o.vals[i+1:]...)
+			return
+		}
+	}
+}
+func (o *orderedMap) Keys() []string { return append([]string{}, o.keys...) }
+
+type indexedList struct{ vals []any }
+
+func (l *indexedList) ValueAtIndex(i int) any {
+	if i < 0 || i >= len(l.vals) {
+		return nil
+	}
+	return l.vals[i]
+}
+func (l *indexedList) SetValueAtIndex(i int, v any) { l.vals[i] = v }
+func (l *indexedList) Size() int                    { return len(l.vals) }
+func (l *indexedList) RemoveValueAtIndex(i int) {
+	l.vals = append(l.vals[:i], l.vals[i+1:]...)
+}
+
+func toColl(v any) any {
+	switch t := v.(type) {
+	case []any:
+		l := &indexedList{vals: make([]any, len(t))}
+		for i, e := range t {
+			l.vals[i] = toColl(e)
+		}
+		return l
+	case map[string]any:
+		ks := make([]string, 0, len(t))
+		for k := range t {
+			ks = append(ks, k)
+		}
+		sort.Strings(ks)
+		o := &orderedMap{}
+		for _, k := range ks {
+			o.keys = append(o.keys, k)
+			o.vals = append(o.vals, toColl(t[k]))
+		}
+		return o
+	}
+	return v
+}
+
+// toTyped puts homogeneous arrays into typed Go slices ([]int64, []string, []map[string]any, [][]any),
+// which jp reaches by reflection; *used reports whether any was.
+func toTyped(v any, used *bool) any {
+	switch t := v.(type) {
+	case []any:
+		for i := range t {
+			t[i] = toTyped(t[i], used)
+		}
+		if len(t) == 0 {
+			return t
+		}
+		switch t[0].(type) {
+		case int64:
+			if out, ok := sliceOf[int64](t); ok {
+				*used = true
+				return out
+			}
+		case string:
+			if out, ok := sliceOf[string](t); ok {
+				*used = true
+				return out
+			}
+		case map[string]any:
+			if out, ok := sliceOf[map[string]any](t); ok {
+				*used = true
+				return out
+			}
+		case []any:
+			if out, ok := sliceOf[[]any](t); ok {
+				*used = true
+				return out
+			}
+		}
+	case map[string]any:
+		for k := range t {
+			t[k] = toTyped(t[k], used)
+		}
+	}
+	return v
+}
+
+func sliceOf[T any](a []any) ([]T, bool) {
+	out := make([]T, len(a))
+	for i, e := range a {
+		x, ok := e.(T)
+		if !ok {
+			return nil, false
+		}
+		out[i] = x
+	}
+	return out, true
 }
 
 func eq(a, b any) bool { return reflect.DeepEqual(normTree(a), normTree(b)) }
@@ -266,6 +432,8 @@ func appendMod(e any) (any, bool) {
 		return append(t, "APP"), true
 	case gen.Array:
 		return append(t, gen.String("APP")), true
+	case *indexedList:
+		return &indexedList{vals: append(append([]any{}, t.vals...), "APP")}, true
 	}
 	return e, false
 }
@@ -571,6 +739,76 @@ func (ck *checker) check(op string, p jpref.Path, d0 any, enum bool, modKind str
 		case !eq(gres, result):
 			c.Violation("jp.Expr."+op+"(gen)", "gen-state-differs-from-simple", class, cs, clip(treegen.Show(normTree(result))), clip(treegen.Show(normTree(gres))))
 		}
+	}
+	// the same request on the data held in other representations: harness-defined jp.Keyed /
+	// jp.RemovableIndexed collections and typed Go slices (reached by reflection)
+	ck.otherRepr("collections", op, x, toColl(treegen.Dup(d0)), d0, result, val, mod, p, class, cs)
+	if op == "Remove" || op == "RemoveOne" {
+		used := false
+		if td := toTyped(treegen.Dup(d0), &used); used {
+			ck.otherRepr("typed-slices", op, x, td, d0, result, val, mod, p, class, cs)
+		}
+	}
+}
+
+// sameSelection: the two Get results hold the same values (as a multiset, representation aside).
+func sameSelection(a, b []any) bool {
+	if len(a) != len(b) {
+		return false
+	}
+	ra, rb := make([]string, len(a)), make([]string, len(b))
+	for i := range a {
+		ra[i] = treegen.Show(normTree(a[i]))
+		rb[i] = treegen.Show(normTree(b[i]))
+	}
+	sort.Strings(ra)
+	sort.Strings(rb)
+	return reflect.DeepEqual(ra, rb)
+}
+
+func (ck *checker) otherRepr(repr, op string, x jp.Expr, td, d0, result, val any, mod func(any) (any, bool), p jpref.Path, class string, cs map[string]any) {
+	c := ck.c
+	if repr == "collections" {
+		val = toColl(val)
+	}
+	// the property ties the mutators to what Get selects on the same data: where Get itself selects
+	// something else on this representation than on the simple data (C11's subject), the comparison with the
+	// simple outcome says nothing about the mutator
+	var g0, g1 []any
+	if pn := mon.Guard(func() { g0, g1 = x.Get(d0), x.Get(td) }); pn != nil || !sameSelection(g0, g1) {
+		c.Cover("twin-skipped:get-selects-differently-on-" + repr)
+		return
+	}
+	tres, terr, tpn := apply(op, x, td, val, mod)
+	c.Cover("twin:" + repr)
+	c.Eval(1)
+	subject := "jp.Expr." + op + "(" + repr + ")"
+	switch {
+	case tpn != nil:
+		c.Violation(subject, "panic", class+"/"+mon.FaultClass(tpn.Msg), cs, "result or error", tpn.String())
+	case terr != nil && mon.IsRuntimeFaultMsg(terr.Error()):
+		c.Violation(subject, "recovered-runtime-fault", class+"/"+mon.FaultClass(terr.Error()), cs, "'can not ...' error or success", terr.Error())
+	case terr != nil && strings.HasPrefix(op, "Set"):
+		c.Cover("twin-error:Set") // a collection can refuse what a slice or map accepts (growing, a value of another type)
+	case terr != nil && op == "DelOne":
+		// the member a wildcard takes first follows the order of members; an index that does not exist in
+		// that member is an error on simple data as well
+		c.Cover("twin-error:DelOne")
+	case terr != nil:
+		c.Violation(subject, "error-on-"+repr+"-only", class, cs, "same outcome as on simple data", terr.Error())
+	case op == "DelOne" || op == "SetOne":
+		// which location these take follows the order of members (a wildcard takes the first member, which
+		// may or may not have the child named next): nothing to compare beyond "no fault"
+		c.Cover("twin-one-form:fault-check-only")
+	case strings.HasSuffix(op, "One"):
+		// which location is taken may differ with the order of members; whether anything changed may not
+		if a, b := eq(result, d0), eq(tres, d0); a != b {
+			c.Violation(subject, "one-form-changed-on-one-representation-only", class, cs, fmt.Sprint("simple data changed: ", !a), fmt.Sprint(repr+" data changed: ", !b))
+		}
+	case !eq(tres, result) && (op == "Remove" || op == "Del") && hasRootOperand(p):
+		c.Cover("accepted:root-operand-changed-during-removal")
+	case !eq(tres, result):
+		c.Violation(subject, repr+"-state-differs-from-simple", class, cs, clip(treegen.Show(normTree(result))), clip(treegen.Show(normTree(tres))))
 	}
 }
 
